@@ -1,8 +1,10 @@
 import Driver.Util
 import Driver.Inhibit
+import Driver.Ingest
 -- engines of work area Alerts: import your Driver.<Engine> modules above and list them here
 namespace Driver.Reg.Alerts
 def engines : List (String × IO UInt32) := [
-  ("inhibit", Driver.runEngine Driver.Inhibit.engine)
+  ("inhibit", Driver.runEngine Driver.Inhibit.engine),
+  ("ingest", Driver.runEngine Driver.Ingest.engine)
 ]
 end Driver.Reg.Alerts
